@@ -145,6 +145,9 @@ def capsBeforeLogin : List ObsItem → List (List String)
 def srvOracle (o : SrvObs) : Option String :=
   let legit := if o.accepted then o.pre ++ o.post else o.pre ++ o.line ++ o.suffix
   let plainCaps := o.greetCaps :: o.trans.filterMap fun | .caps l => some l | _ => none
+  let authedInPlain := o.trans.any fun
+    | .reply t s _ => s = "OK" && (credTags o.pre).contains t
+    | _ => false
   -- 1. nothing injected after the STARTTLS line is executed
   if o.accepted && !isSubseq (callWants o.calls) (wants o.sasl legit) then
     some "injected-plaintext-executed"
@@ -166,7 +169,7 @@ def srvOracle (o : SrvObs) : Option String :=
   else if !o.insecure && o.preauth && plainCaps.any hasAuthCap then
     some "credentials-offered-without-tls"
   -- 5. once TLS is active they are offered (to a client that is not authenticated yet)
-  else if !o.preauth && (capsBeforeLogin o.ptrans).any (fun l => !hasAuthCap l || l.contains "LOGINDISABLED") then
+  else if !o.preauth && !authedInPlain && (capsBeforeLogin o.ptrans).any (fun l => !hasAuthCap l || l.contains "LOGINDISABLED") then
     some "credentials-not-offered-inside-tls"
   else none
 
